@@ -235,64 +235,79 @@ def r16_7(ctx, fx):
         ctx.ob("R16.7", "disconnect_peer/settling-the-failing-query-does-not-depend-on-peers.remove", bool(hits) and not gated, site=fn.site(sw[0]), cfg=fx.cfg)
 
 
+QUORUM_CONTEXTS = [
+    # (module, type, method that counts a success, tag)
+    ("target_peers", "PutToTargetPeersContext", "register_send_success", ""),
+    # src/protocol/libp2p/kademlia/query/put_record.rs (PutRecordToFoundNodesContext) is not a module of the crate (dead file): the put
+    # to the closest peers found is tracked by PutToTargetPeersContext as well (start_put_record_to_found_nodes_requests_tracking)
+]
+
+
 def r16_4(ctx, fx):
-    T = "protocol::libp2p::kademlia::query::target_peers::PutToTargetPeersContext::"
+    """sibling contexts that decide 'the requested quorum was reached' (put to given peers; put to the closest peers found): the same
+    obligations are evaluated on both"""
+    for mod_, ty, okm, tag in QUORUM_CONTEXTS:
+        _r16_4(ctx, fx, mod_, ty, okm, tag)
+
+
+def _r16_4(ctx, fx, mod_, ty, okm, tag):
+    T = "protocol::libp2p::kademlia::query::%s::%s::" % (mod_, ty)
     fn = ctx.fn(fx, T + "next_action", "R16.4")
     if fn is not None:
         succ = fn.aggregates(r"QueryAction$", "QuerySucceeded")
-        fin = fn.calls(r"PutToTargetPeersContext::is_finished$")
-        suc = fn.calls(r"PutToTargetPeersContext::is_succeded$")
-        ctx.anchor("R16.4", "next_action: QuerySucceeded aggregate", len(succ), 1, cfg=fx.cfg)
-        ctx.anchor("R16.4", "next_action: is_finished / is_succeded calls", min(len(fin), len(suc)), 1, cfg=fx.cfg)
+        fin = fn.calls(ty + r"::is_finished$")
+        suc = fn.calls(ty + r"::is_succeded$")
+        ctx.anchor("R16.4", tag + "next_action: QuerySucceeded aggregate", len(succ), 1, cfg=fx.cfg)
+        ctx.anchor("R16.4", tag + "next_action: is_finished / is_succeded calls", min(len(fin), len(suc)), 1, cfg=fx.cfg)
         if succ and fin and suc:
             ok = True
             for c in (fin[0], suc[0]):
                 tests = fn.bool_tests(c.dest[0])
                 ok = ok and any(fn.only_via(succ[0][0], sw, [t]) for sw, t, f in tests)
-            ctx.ob("R16.4", "next_action/QuerySucceeded-only-if-finished-and-quorum", ok, site=fn.site(succ[0][0]), cfg=fx.cfg,
+            ctx.ob("R16.4", tag + "next_action/QuerySucceeded-only-if-finished-and-quorum", ok, site=fn.site(succ[0][0]), cfg=fx.cfg,
                    detail="QuerySucceeded must lie behind the true edges of is_finished() and is_succeded()")
     fn = ctx.fn(fx, T + "new", "R16.4")
     if fn is not None:
-        aggs = [(n, s_) for n, s_ in fn.aggregates(r"PutToTargetPeersContext$") if "peers_to_succeed" in s_["rv"].get("fields", [])]
-        ctx.anchor("R16.4", "PutToTargetPeersContext literal", len(aggs), 1, cfg=fx.cfg)
+        aggs = [(n, s_) for n, s_ in fn.aggregates(ty + "$") if "peers_to_succeed" in s_["rv"].get("fields", [])]
+        ctx.anchor("R16.4", ty + " literal", len(aggs), 1, cfg=fx.cfg)
         for n, s_ in aggs:
             o = s_["rv"]["ops"][s_["rv"]["fields"].index("peers_to_succeed")]
-            ctx.ob("R16.4", "new/peers_to_succeed>=1-for-every-quorum", _positive(fn, o), site=fn.site(n), cfg=fx.cfg,
+            ctx.ob("R16.4", tag + "new/peers_to_succeed>=1-for-every-quorum", _positive(fn, o), site=fn.site(n), cfg=fx.cfg,
                    detail="with a required count of 0 and no usable target the context reports success although nothing was sent; every arm of the "
                           "quorum match must yield a value >= 1 (constant, NonZero::get, max(.., 1), min of such)")
             z = s_["rv"]["ops"][s_["rv"]["fields"].index("n_succeeded")] if "n_succeeded" in s_["rv"]["fields"] else None
-            ctx.ob("R16.4", "new/n_succeeded-starts-at-0", z is not None and fn.const_value(z) == 0, site=fn.site(n), cfg=fx.cfg)
+            ctx.ob("R16.4", tag + "new/n_succeeded-starts-at-0", z is not None and fn.const_value(z) == 0, site=fn.site(n), cfg=fx.cfg)
     fn = ctx.fn(fx, T + "is_succeded", "R16.4")
     if fn is not None:
         is_q = lambda f, o: guards.has_root(f, o, r"\.n_succeeded")
         is_b = lambda f, o: guards.has_root(f, o, r"\.peers_to_succeed")
         cmps = guards.comparisons(fn, is_q, is_b)
         ok = len(cmps) == 1 and cmps[0][2] == ">=" and fn.single_def(0) is not None
-        ctx.ob("R16.4", "is_succeded/n_succeeded>=peers_to_succeed", ok, site=fn.site(fn.entry), cfg=fx.cfg,
+        ctx.ob("R16.4", tag + "is_succeded/n_succeeded>=peers_to_succeed", ok, site=fn.site(fn.entry), cfg=fx.cfg,
                detail="comparisons found: %s" % [(fn.site(n), rel) for n, d, rel in cmps])
     fn = ctx.fn(fx, T + "is_finished", "R16.4")
     if fn is not None:
         c = fn.calls(r"HashSet::is_empty$")
         ok = len(c) == 1 and ".pending_peers" in fn.recv(c[0]) and c[0].dest == [0]
-        ctx.ob("R16.4", "is_finished/pending_peers-empty", ok, site=fn.site(fn.entry), cfg=fx.cfg, detail="returns pending_peers.is_empty()")
-    fn = ctx.fn(fx, T + "register_send_success", "R16.4")
+        ctx.ob("R16.4", tag + "is_finished/pending_peers-empty", ok, site=fn.site(fn.entry), cfg=fx.cfg, detail="returns pending_peers.is_empty()")
+    fn = ctx.fn(fx, T + okm, "R16.4")
     if fn is not None:
         rm = field_calls(fn, r"HashSet::remove$", "pending_peers")
         incs = [n for n, s in fn.assigns() if "".join(s["lhs"][1:]).endswith(".n_succeeded")]
-        ctx.anchor("R16.4", "register_send_success: pending_peers.remove / n_succeeded write", min(len(rm), len(incs)), 1, cfg=fx.cfg)
+        ctx.anchor("R16.4", okm + ": pending_peers.remove / n_succeeded write", min(len(rm), len(incs)), 1, cfg=fx.cfg)
         if rm and incs:
             tests = fn.bool_tests(rm[0].dest[0])
             ok = all(any(fn.only_via(n, sw, [t]) for sw, t, f in tests) for n in incs)
-            ctx.ob("R16.4", "register_send_success/count-only-pending-peer", ok, site=fn.site(incs[0]), cfg=fx.cfg,
+            ctx.ob("R16.4", tag + okm + "/count-only-pending-peer", ok, site=fn.site(incs[0]), cfg=fx.cfg,
                    detail="n_succeeded is incremented only when the peer was removed from pending_peers")
     # who writes n_succeeded
     writers = set()
-    for key in fx.find(r"kademlia::query::target_peers::"):
+    for key in fx.find(r"kademlia::query::%s::" % mod_):
         f = fx.fn(key)
         for n, s in f.assigns():
             if "".join(s["lhs"][1:]).endswith(".n_succeeded"):
                 writers.add(key)
-    ctx.ob("R16.4", "n_succeeded-writers", writers <= {T + "register_send_success"}, cfg=fx.cfg,
+    ctx.ob("R16.4", tag + "n_succeeded-writers", writers <= {T + okm}, cfg=fx.cfg,
            detail="functions writing n_succeeded: %s" % sorted(writers))
 
 
